@@ -1352,8 +1352,9 @@ class Spec(object):
             return ('undecided', 'data pointer unknown', None)
         ctor = c['bn'] == 'small_vector::small_vector'
         inplace = (not ctor) and same(D1, D0, eqs)
-        if not inplace and not ctor and clean(D1):
-            return ('undecided', 'data pointer is neither the entry buffer nor a fresh one', None)
+        own_inline = sym.is_lin(D1) and len(D1[2]) == 1 and D1[2][0] == (('arg', 0), 1)
+        if not inplace and not ctor and clean(D1) and not own_inline:
+            return ('undecided', 'data pointer is neither the entry buffer, the inline buffer nor a fresh one', None)
         fs = ex.get('facts') or []
 
         def prove_le(x, y):
@@ -1379,8 +1380,8 @@ class Spec(object):
         writes = []
         for i, e in enumerate(effs):
             what = e[0]
-            if what in ('bytecopy', 'bytefill', 'swap'):
-                return ('undecided', 'byte-wise or swapping element operation', None)
+            if what in ('bytefill', 'swap'):
+                return ('undecided', 'byte fill or swapping element operation', None)
             if what == 'destroy':
                 continue
             if is_temp(e[2]):
@@ -1442,7 +1443,7 @@ class Spec(object):
                         right = all(co > 0 for at, co in d[2]) and d[1] >= 0      # moves towards the end
                         left = all(co < 0 for at, co in d[2]) and d[1] <= 0
                         touch = prove_le(w['sb'], w['a']) if right else prove_le(w['b'], w['sa'])
-                        if (right or left) and not touch and w['dir'] != (-1 if right else 1):
+                        if (right or left) and not touch and w['dir'] != 0 and w['dir'] != (-1 if right else 1):
                             return ('bad', 'elements are shifted %s inside the buffer in %s order: sources are overwritten before '
                                     'they are read' % ('towards the end' if right else 'towards the front',
                                                        'ascending' if w['dir'] > 0 else 'descending'),
@@ -1495,9 +1496,10 @@ class Spec(object):
                                       '%s: %s: %s (%s)' % (rule, sig, what, self.cfg.name), d)
 
     def placement_ok(self, c):
-        # explicit element operations only: class-type elements (trivially copyable ones are moved
-        # with memcpy/memmove and stored by plain stores - not modelled)
-        return self.cfg.elem in ('NM', 'CO', 'MO', 'MOT')
+        # element types with opaque special members: every element operation is an explicit call.
+        # Scalars and trivial aggregates are written by plain stores / memset / memcpy of single
+        # objects, which are not modelled as element operations
+        return self.cfg.elem not in ('int', 'intp', 'TR')
 
     def eff_text(self, e, c):
         b = show(e[3], c) if e[3] is not None else 'one element'
